@@ -312,6 +312,39 @@ def run_interpolate(ctx):
     prob['data'] = np.array([tgt * float(rng.uniform(0.5, 3)) + 0.15 * rng.standard_normal(tgt.shape)
                              for _ in range(prob['n_train'])])
     method = gen.pick(rng, ['cosine', 'corr', 'cosine_cov'])
+    # hostile class "vertex trap": the optimum is a pure RDM at the end of the chain whose neighbour is a large,
+    # nearly anti-parallel RDM.  Geometry in a plane (e1, e2) of centred vectors: neighbour B = r*e1, vertex C at an
+    # angle tc close to 180 deg, data at tc + delta (delta < 90 deg): C correlates weakly positively, B negatively, and
+    # the mixtures in between swing through directions far worse than either end -- the bounded scalar search ends at
+    # the wrong end unless the pure RDMs are evaluated
+    trap = nb >= 3 and rng.integers(3) == 0
+    if trap:
+        v = int(gen.pick(rng, [nb - 1, nb - 1, 0]))
+        nbr = v - 1 if v > 0 else 1
+        b = prob['basis']
+        npair = b.shape[1]
+
+        def unit(x, *others):
+            x = x - x.mean()
+            for o in others:
+                x = x - (x @ o) * o
+            return x / np.linalg.norm(x)
+        e1 = unit(rng.standard_normal(npair))
+        e2 = unit(rng.standard_normal(npair), e1)
+        e3 = unit(rng.standard_normal(npair), e1, e2)
+        tc = np.deg2rad(rng.uniform(150, 178))
+        phi = tc + np.deg2rad(rng.uniform(55, 85))
+        pos_ = lambda x: x - x.min() + 0.1  # noqa: E731
+        b[nbr] = pos_(float(rng.uniform(3, 8)) * e1)
+        b[v] = pos_(np.cos(tc) * e1 + np.sin(tc) * e2)
+        sigv = np.cos(phi) * e1 + np.sin(phi) * e2 + float(rng.uniform(0, 1)) * e3
+        for o in range(nb):
+            if o not in (v, nbr):    # remaining candidates: clearly worse than the vertex
+                b[o] = pos_(-sigv + 0.5 * unit(rng.standard_normal(npair)))
+        prob['data'] = np.array([pos_(sigv + 0.05 * rng.standard_normal(npair)) for _ in range(prob['n_train'])])
+        prob['selk'], prob['pos'] = 'all', list(range(prob['n_cond']))
+        method = 'corr'
+        j = min(v, nb - 2)
     n_sub = len(prob['pos'])
     data_sub = np.array([sub(d, prob) for d in prob['data']])
     basis_sub = np.array([sub(b, prob) for b in prob['basis']])
@@ -320,7 +353,7 @@ def run_interpolate(ctx):
         ctx.count('rejected_degenerate')
         return
     sig = dict(fitter='fit_interpolate', method=method, selection=prob['selk'], sigma='none', n_basis=nb,
-               best_pair_is_last=j == nb - 2)
+               best_pair_is_last=j == nb - 2, vertex_trap=bool(trap))
     wit = lambda **k: dict(basis=prob['basis'], data=prob['data'], pos=prob['pos'], method=method, **k)  # noqa: E731
     model = ModelInterpolate('i', model_rdms(prob))
     use_default = bool(rng.integers(2))
